@@ -21,7 +21,7 @@ def run(ctx):
     thorough = ctx.tier == "thorough"
     ctx.model_check("MC_Fasta", "MC_Fasta_machine9" if thorough else "MC_Fasta_machine6", workers=8)
     ctx.model_check("MC_Fasta", "MC_Fasta_layout_t" if thorough else "MC_Fasta_layout_q", workers=16 if thorough else 8,
-                    heap="12g" if ctx.tier == "thorough" else "8g", timeout=3000)
+                    heap="8g", timeout=3000)
     # leg R
     r = ctx.model_check("MC_Fasta", "MC_Fasta_layout_emit", workers=4, count=False)
     cases = codec.emitted_cases(r["out"])
@@ -42,7 +42,7 @@ def leg_T(ctx, sessions, only=None):
     tpath = os.path.join(ctx.work, "fasta_trace.ndjson")
     args = ["fasta-drive", tpath, sessions] + ([only] if only is not None else [])
     ctx.vh(args)
-    codec.judge_trace(ctx, "Trace_Fasta", tpath, {"driver": "fasta-drive", "sessions": sessions}, maxset=100000000,
+    codec.judge_trace(ctx, "Trace_Fasta", tpath, {"driver": "fasta-drive", "sessions": sessions}, maxset=100000000, heap="12g",
                       describe=lambda e: "%s/%s name=%s len(seq)=%d" % (e["op"], e["kind"], bytes(e["name"]), len(e["seq"])) if e["op"] == "write"
                       else "read/%s of %d bytes, want %d records, got %d items err=%s" % (e["kind"], len(e["bytes"]), len(e["want"]), len(e["items"]), e["err"]))
 
